@@ -40,10 +40,12 @@ def nxt (s : Src) : Placeholder → PSt
   | .placeable _ => .afterPl
   | .text a b ind role => if isGhost a b ind role then .afterGhost else if endsLF s b then .afterNl else .afterText
 
-/-- the bytes of `[a, b)`: no `\r`, no braces, `\n` only as the last byte -/
+/-- the bytes of `[a, b)`: no braces, `\n` only as the last byte, and that `\n` not directly behind a `\r`
+(a `\r` that is not followed by `\n` is an ordinary text byte) -/
 def TextBytes (s : Src) (a b : Nat) : Prop :=
-  b ≤ s.size ∧ (∀ j, a ≤ j → j < b → s[j]? ≠ some 13 ∧ s[j]? ≠ some 123 ∧ s[j]? ≠ some 125) ∧
-    (∀ j, a ≤ j → j + 1 < b → s[j]? ≠ some 10)
+  b ≤ s.size ∧ (∀ j, a ≤ j → j < b → s[j]? ≠ some 123 ∧ s[j]? ≠ some 125) ∧
+    (∀ j, a ≤ j → j + 1 < b → s[j]? ≠ some 10) ∧
+    (∀ j, a ≤ j → j + 1 < b → s[j]? = some 13 → s[j + 1]? ≠ some 10)
 
 /-- a line with content: `ind` spaces, then a byte that may continue a pattern -/
 def ContentLine (s : Src) (a b ind : Nat) : Prop :=
